@@ -326,3 +326,37 @@ def run(ctx):
     check_dispatch(ctx, db, "Issue", "issue")
     check_dispatch(ctx, db, "Patch", "patch")
     check_authors(ctx, db)
+    check_equality(ctx, db, [f for f in (ia, pa) if f is not None])
+
+
+def check_equality(ctx, db, fns):
+    """The authorization table compares actors, authors and label/assignee sets with `==`.  Those comparisons mean what
+    the table says only if equality on the compared types is structural: a hand-written `PartialEq` (case-insensitive
+    labels, say) makes two different values "equal", and the "no change" exemption then lets a non-delegate change one
+    into the other."""
+    seen = {}
+    for fn in fns:
+        fam = [fn] + [f for f in db.closures_of.get(db.root_of(fn)["n"], []) if f is not fn]
+        for f in fam:
+            for bb, t, c in db.calls(f):
+                dn = c.get("dn") or ""
+                if not re.search(r"cmp::PartialEq::(eq|ne)$", dn):
+                    continue
+                for ty in c.get("ga") or []:
+                    for m in re.finditer(r"(radicle[\w]*::[\w:]+)", ty):
+                        seen.setdefault(m.group(1), (f, bb))
+    ctx.floor("eq:types", len(seen), 1, "workspace types compared by the authorization functions")
+    for ty, (f, bb) in sorted(seen.items()):
+        eqf = [x for x in db.all_fns() if x["key"] == "<%s as core::cmp::PartialEq>::eq" % ty]
+        if not eqf:
+            continue
+        e = eqf[0]
+        derived = "derive(PartialEq" in (e.get("exp") or "")
+        if derived:
+            ctx.held("eq:structural:%s" % cfg.short(ty), "equality on %s is the derived, structural one" % cfg.short(ty), rules.where(e), fn=e)
+        elif re.search(r"^radicle_crypto::PublicKey$|^radicle::identity::did::Did$", ty):
+            ctx.held("eq:structural:%s" % cfg.short(ty), "equality on %s compares the key bytes (reviewed)" % cfg.short(ty), rules.where(e), fn=e)
+        else:
+            ctx.violated("eq:structural:%s" % cfg.short(ty),
+                         "the authorization rules compare values of %s with `==`, but its PartialEq is hand-written (not structural): values that differ can "
+                         "compare equal, so a change between them passes the \"nothing changed\" / \"is the author\" tests" % cfg.short(ty), rules.where(e), fn=e)
